@@ -208,6 +208,13 @@ func checkGrammar(r *ev.Run, g *gram, family string, n int, extra [][]string, ex
 		class = "dep-lalr-superset-state"
 		r.Add("grammars_with_nested_kernels", 1)
 	}
+	// Known-finding predicate "dep-lalr-nonproductive-crash": the dependency's table builder dereferences a nil
+	// lookahead set for some grammars in which a non-terminal derives no terminal string; emerge reports the recovered
+	// crash as the table-construction error. Only such grammars, and only that error, are explained by it.
+	if terr != nil && !conflict && hasNonProductive(g) && strings.Contains(terr.Error(), "nil pointer dereference") {
+		r.Report("dep-lalr-nonproductive-crash", fmt.Sprintf("the grammar has no LALR(1) conflict but the table builder crashes: %v\n%s", terr, text), in)
+		return
+	}
 	switch {
 	case terr != nil && !conflict:
 		r.Report(class, fmt.Sprintf("the grammar is LALR(1) under its directives (independent construction: %d states, %d cells resolved by precedence, no conflict left) but emerge rejects it: %v\n%s", ref.NStates, ref.Resolved, terr, text), in)
@@ -277,6 +284,36 @@ func checkGrammar(r *ev.Run, g *gram, family string, n int, extra [][]string, ex
 		test(s)
 	}
 	r.Add("sentences_driven", strs)
+}
+
+// hasNonProductive reports whether some non-terminal of g derives no terminal string.
+func hasNonProductive(g *gram) bool {
+	productive := map[string]bool{}
+	for changed := true; changed; {
+		changed = false
+		for _, p := range g.prods {
+			if productive[p.Head] {
+				continue
+			}
+			ok := true
+			for _, s := range p.Body {
+				if !s.Term && !productive[s.Name] {
+					ok = false
+					break
+				}
+			}
+			if ok {
+				productive[p.Head] = true
+				changed = true
+			}
+		}
+	}
+	for _, p := range g.prods {
+		if !productive[p.Head] {
+			return true
+		}
+	}
+	return false
 }
 
 func T(s string) lrref.Sym { return lrref.Sym{Name: s, Term: true} }
